@@ -308,10 +308,4 @@ mod harness {
     #[kani::proof]
     #[kani::stub(alloc::fmt::format, stub_format)]
     fn h_short_circuit_or() { check_special(Or); }
-    #[kani::proof]
-    #[kani::stub(alloc::fmt::format, stub_format)]
-    #[kani::unwind(2)]
-    fn h_strict_other() {
-        check_special(if kani::any() { In } else { Sub });
-    }
 }
